@@ -329,6 +329,17 @@ func runCheck(o *checkOpts) int {
 				r = solveResult{status: st, solver: solvers[0].name, ms: ms, out: out}
 			}
 			if !decided() && !ob.Cover && !thorough {
+				// recursive spec functions the goal does not mention, left uninterpreted (fewer assumptions: unsat carries over)
+				for _, all := range []bool{false, true} {
+					if q3, ok := opaqueRecVariant(q, ob.Goal, all); ok && !decided() {
+						st3, out3, ms3 := runOne(context.Background(), solvers[0], writeTmp(tmp, fmt.Sprintf("q%d_opaquerec%v.smt2", i, all), q3), 5)
+						if st3 == "unsat" {
+							r = solveResult{status: "unsat", solver: solvers[0].name + " (recursive spec functions uninterpreted)", ms: r.ms + ms3, out: out3}
+						}
+					}
+				}
+			}
+			if !decided() && !ob.Cover && !thorough {
 				// undecided: try the relaxation without quantified axioms. unsat there is unsat here (fewer
 				// assumptions); sat there is only a candidate model (solvers rarely return models under quantifiers).
 				q2 := c.buildQueryOpt(ob, true, true)
@@ -349,6 +360,17 @@ func runCheck(o *checkOpts) int {
 			}
 			if !decided() {
 				r = solve(q, tmp, fmt.Sprintf("q%d", i), oblTimeout(c, o.timeout), thorough)
+			}
+			if !decided() && !ob.Cover && thorough {
+				for _, all := range []bool{false, true} {
+					if q3, ok := opaqueRecVariant(q, ob.Goal, all); ok && !decided() {
+						r3 := solve(q3, tmp, fmt.Sprintf("q%d_opaquerec%v", i, all), oblTimeout(c, o.timeout), true)
+						if r3.status == "unsat" {
+							r3.solver += " (recursive spec functions uninterpreted)"
+							r = r3
+						}
+					}
+				}
 			}
 			ob.Status, ob.Solver, ob.Ms, ob.Output = r.status, r.solver, r.ms, r.out
 			if r.status == "sat" {
